@@ -15,7 +15,7 @@ LEVEL = 'exploration'
 TECHNIQUE = 'bounded exhaustive enumeration (slot x child x layout x code form x pars) with a pure-AST substitution model checked by CPython unparse/parse'
 RULE = ('Finite product: every expression / pattern slot template (each side of each binary operator, unary operands, BoolOp and '
         'Compare positions, call func/args/keywords/starred, subscript value/slice, attribute base, conditional and lambda parts, '
-        'walrus value, comprehension parts, await/yield operands, dict/sequence elements, f-string values, statement-level slots, '
+        'walrus value, comprehension parts, await/yield operands, dict/sequence elements, f-string values and operands one level below an f-string replacement field, statement-level slots, '
         'pattern slots) x every child kind (one representative per expression kind / operator / pattern kind) x child layout '
         '{bare, parenthesised, parenthesised multi-line with comment, split before operator} x parent layout {one line, enclosed '
         'multi-line, backslash continuation} x code form {src, AST, FST} x pars {auto, True}. Expected = pure AST of the parent '
@@ -58,7 +58,10 @@ SLOTS = tuple(
      'async with SLOT: pass', 'async with SLOT as y: pass', 'async with a, SLOT: pass', 'async with a as SLOT: pass', 'async for SLOT in a: pass',
      'async for i in SLOT: pass', 'x = [i async for i in SLOT]', 'x = [i async for SLOT in a]', 'async def f(a=SLOT): pass', 'async def f() -> SLOT: pass',
      'x = not SLOT', 'x = a and SLOT', 'x = SLOT or b', 'x = SLOT < b', 'x = a < SLOT < c', 'x = a is not SLOT', 'x = SLOT in b', 'global_ = SLOT; y = 1',
-     'if a: pass\nelif SLOT: pass', 'x = a[SLOT::c]', 'x = {**a, SLOT: v}', 'print(SLOT, *a)', 'print(*a, SLOT)', 'f(k=v, *SLOT)'])
+     'if a: pass\nelif SLOT: pass', 'x = a[SLOT::c]', 'x = {**a, SLOT: v}', 'print(SLOT, *a)', 'print(*a, SLOT)', 'f(k=v, *SLOT)',
+     # one level below an f-string replacement field: a `:` / `!` / `=` of the operand would be read as conversion / format spec unless parenthesised
+     "x = f'{SLOT, b}'", "x = f'{a, SLOT}'", "x = f'{a, SLOT!r:>5}'", "x = f'{a if b else SLOT}'", "x = f'{a or SLOT}'", "x = f'{a + SLOT}'", "x = f'{-SLOT}'",
+     "x = f'{[SLOT]}'", "x = f'{g(SLOT)}'", "x = f'{a:{b, SLOT}}'", "x = f'{a < SLOT}'", "x = f'{*SLOT, b}'", "x = f'{a[SLOT]}'", "x = f'{(a, SLOT)}'", "x = f'{not SLOT}'"])
 
 EXPR_CHILDREN = ('x', '1', '-1', '1j', '1.5', "'s'", "b'b'", 'None', '...', 'a.b', 'a[b]', 'a[b:c]', 'f()', 'f(a, k=v)',
                  'a + b', 'a - b', 'a * b', 'a / b', 'a // b', 'a % b', 'a ** b', 'a @ b', 'a << b', 'a >> b', 'a | b', 'a & b', 'a ^ b',
